@@ -44,7 +44,7 @@ class Cfg:
         self.exist_steps = True
         self.inherit_bias = 0.6
         self.meta = True
-        self.shared_field_names = 0.0   # field names reused across unrelated families
+        self.shared_field_names = 0.2   # field names reused across unrelated families
         for k, v in kw.items():
             if not hasattr(self, k):
                 raise TypeError(k)
@@ -146,13 +146,34 @@ class LangGen:
             # not collide with a plain association name
             assoc_names.append(nm)
             lm, rm = rng.choice(MULTS), rng.choice(MULTS)
+            lfield, rfield = 'f%d' % fld, 'f%d' % (fld + 1)
+            fld += 2
+            if spec['associations'] and rng.random() < cfg.shared_field_names:
+                # reuse the two field names of an earlier association on
+                # unrelated asset types: legal as long as no asset type ends up
+                # with two fields of the same name (a field is held by the
+                # descendants of the opposite end)
+                other = rng.choice(spec['associations'])
+                cand = (other['leftField'], other['rightField']) if rng.random() < 0.7 else (other['rightField'], other['leftField'])
+
+                def holders(fname):
+                    out = set()
+                    for a in spec['associations']:
+                        if a['leftField'] == fname:
+                            out |= set(tmp.descendants(a['rightAsset']))
+                        if a['rightField'] == fname:
+                            out |= set(tmp.descendants(a['leftAsset']))
+                    return out
+                if (not (holders(cand[0]) & set(tmp.descendants(r))) and not (holders(cand[1]) & set(tmp.descendants(l)))
+                        and cand[0] != cand[1]
+                        and not (set(tmp.descendants(l)) & set(tmp.descendants(r)))):
+                    lfield, rfield = cand
             spec['associations'].append({
                 'name': nm, 'meta': self._meta(),
-                'leftAsset': l, 'leftField': 'f%d' % fld,
+                'leftAsset': l, 'leftField': lfield,
                 'leftMultiplicity': {'min': lm[0], 'max': lm[1]},
-                'rightAsset': r, 'rightField': 'f%d' % (fld + 1),
+                'rightAsset': r, 'rightField': rfield,
                 'rightMultiplicity': {'min': rm[0], 'max': rm[1]}})
-            fld += 2
 
     # ------------------------------------------------------------------
     def _gen_step_skeleton(self):
